@@ -284,6 +284,87 @@ class DrapeMerge(Scenario):
             return "ok"
 
 
+class MergeDup(Scenario):
+    """two data sets with the same name (and same-named type) on ONE input: the library warns and must still keep both --
+    each of them is found, at the input's offset, in its own merged data set.  The first of the two has a gap (NaN) at a
+    chosen position, the values are symbolic."""
+    pid = "C16"
+
+    def body(self, cx):
+        import warnings
+        from geoh5py.workspace import Workspace
+        from geoh5py.objects import Curve, Points
+        from geoh5py.shared.merging import CurveMerger, PointsMerger
+        kind = self.params["kind"]
+        shapes = self.params["shapes"]
+        dup_on = self.params["dup_on"]                 # index of the input that carries the two data sets
+        gaps = self.params.get("gaps", (0,))           # positions of the first data set that are no-data
+        others = self.params.get("others", [True] * len(shapes))   # which other inputs carry one "d"
+        cls, merger = {"points": (Points, PointsMerger), "curve": (Curve, CurveMerger)}[kind]
+        w = 2 if kind == "curve" else 0
+        ws = Workspace()
+        ins, dsets = [], []
+        for e, (n, m) in enumerate(shapes):
+            kw = {"vertices": real_np.zeros((n, 3)), "name": f"in{e}"}
+            if w:
+                kw["cells"] = real_np.array([[i, i + 1] for i in range(n - 1)], dtype="int32")
+            o = cls.create(ws, **kw)
+            mine = []
+            if e == dup_on or others[e]:
+                mine.append(o.add_data({"d": {"values": real_np.zeros(n), "association": "VERTEX"}}))
+            if e == dup_on:
+                mine.append(o.add_data({"d": {"values": real_np.ones(n), "association": "VERTEX"}}))
+            ins.append(o)
+            dsets.append(mine)
+        patch.detach(ws, *(ins + [d for mine in dsets for d in mine]))
+        with self.engine(cx) as X:
+            sym = []
+            for e, (o, (n, m)) in enumerate(zip(ins, shapes)):
+                V = [[cx.real(f"v{e}_{i}{a}") for a in "xyz"] for i in range(n)]
+                o.vertices = mk_array(X, [x for r in V for x in r], (n, 3), "float64")
+                vals = []
+                for k, d in enumerate(dsets[e]):
+                    D = [float("nan") if (e == dup_on and k == 0 and i in gaps) else cx.real(f"d{e}_{k}_{i}") for i in range(n)]
+                    d.values = mk_array(X, D, (n,), "float64")
+                    vals.append(D)
+                sym.append(vals)
+            try:
+                with warnings.catch_warnings():
+                    warnings.simplefilter("ignore")
+                    out = merger.merge_objects(ws, list(ins), add_data=True)
+            except Exception as e:  # noqa: BLE001
+                cx.prove(False, f"merge raised {type(e).__name__}", "merge succeeds on valid same-class inputs")
+                return f"raised {type(e).__name__}"
+            tot = sum(n for n, _ in shapes)
+            outs = [elems(c.values) for c in out.children
+                    if hasattr(c, "values") and getattr(getattr(c, "association", None), "name", None) == "VERTEX"
+                    and c.values is not None]
+            cx.prove(all(len(v) == tot for v in outs), "every merged data set has one entry per merged vertex", "data")
+            outs = [v for v in outs if len(v) == tot]
+
+            def same(a, b):
+                if is_nan(a) or is_nan(b):
+                    return bool(is_nan(a) and is_nan(b))
+                return eq(a, b)
+
+            off = 0
+            for e, (n, m) in enumerate(shapes):
+                k_sets = sym[e]
+                # injective assignment of this input's data sets to merged data sets
+                alts = []
+                for perm in itertools.permutations(range(len(outs)), len(k_sets)):
+                    alts.append(And([same(outs[j][off + i], k_sets[k][i]) for k, j in enumerate(perm) for i in range(n)]))
+                if k_sets:
+                    cx.prove(Or(alts) if alts else False,
+                             f"input {e}: each of its {len(k_sets)} data set(s) named 'd' is kept, at its offset, in a merged data "
+                             f"set of its own", "data (duplicate names)")
+                for k, d in enumerate(dsets[e]):
+                    cx.prove(And([same(x, y) for x, y in zip(elems(d.values), k_sets[k])]), f"input {e} data {k} unchanged",
+                             "inputs unchanged")
+                off += n
+            return "ok"
+
+
 def is_sym_(x):
     from symx.core import is_sym
     return is_sym(x)
@@ -303,7 +384,9 @@ def scenarios(tier, seed):
               Merge(kind="points", shapes=[(2, 0), (2, 0)], vdata=[True, True], stored=True),
               Merge(kind="points", shapes=[(2, 0), (3, 0), (1, 0)], vdata=[True, False, True],
                     extras=[("referenced", "integer"), ("boolean",), ("referenced",)]),
-              Merge(kind="curve", shapes=[(3, 1), (2, 1)], vdata=[False, True], extras=[("referenced", "boolean"), ("referenced", "integer")])]
+              Merge(kind="curve", shapes=[(3, 1), (2, 1)], vdata=[False, True], extras=[("referenced", "boolean"), ("referenced", "integer")]),
+              MergeDup(kind="points", shapes=[(3, 0), (2, 0)], dup_on=0, gaps=(0,)),
+              MergeDup(kind="curve", shapes=[(2, 1), (3, 2)], dup_on=1, gaps=(1, 2), others=[False, True])]
     else:
         for kind in ("curve", "surface"):
             for shapes in ([(3, 1), (2, 1)], [(4, 2), (3, 2)], [(2, 2), (3, 3), (4, 1)], [(4, 3), (4, 3)],
@@ -322,6 +405,13 @@ def scenarios(tier, seed):
               for k_, sh_ in (("curve", [(3, 2), (2, 1), (3, 2)]), ("surface", [(4, 2), (3, 1)]), ("points", [(2, 0), (3, 0), (2, 0)]))]
         S += [DrapeMerge(shapes=[[2, 1], [1, 2], [1, 1]], data=[True, False, True]), DrapeMerge(shapes=[[1, 1], [2, 2]]),
               DrapeMerge(shapes=[[2, 2], [1, 1], [3, 1], [1, 2]], data=[True, True, False, True])]
+        for kind_, shapes, dup_on in (("points", [(3, 0), (2, 0)], 0), ("points", [(2, 0), (3, 0), (2, 0)], 1),
+                                      ("curve", [(2, 1), (3, 2)], 1), ("curve", [(3, 2), (3, 2)], 0)):
+            n_ = shapes[dup_on][0]
+            for r in range(0, n_):
+                for gaps in itertools.combinations(range(n_), r):
+                    for others in ([True] * len(shapes), [False] * len(shapes)):
+                        S.append(MergeDup(kind=kind_, shapes=shapes, dup_on=dup_on, gaps=gaps, others=others))
         for shapes in ([(2, 0), (1, 0), (2, 0)], [(4, 0), (4, 0)], [(1, 0), (1, 0), (1, 0), (1, 0)]):
             k = len(shapes)
             for vd in ([True] * k, [True] + [False] * (k - 1), [False] * (k - 1) + [True]):
@@ -338,9 +428,9 @@ def main(tier, seed):
             "numpy replaced by the symx model; each explored path re-run on real numpy with a model of its path condition",
         ],
         outside=["order and number of the filler prisms a drape-model merge inserts between inputs", "more or larger inputs than the bounds", "integer / referenced data kinds",
-                 "duplicate data names on one input (ambiguous by the library's own warning)"],
+                 "duplicate data names on one input beyond two float vertex data sets, the first with gaps at an enumerated set of positions (MergeDup); a first set that is entirely no-data (the library then reuses its slot)"],
         bounds={"quick": "2-3 inputs, n_i<=4 vertices, m_i<=2 cells with arbitrary in-range indices (unreferenced "
                          "vertices included), float vertex/cell data on an enumerated subset of inputs",
                 "thorough": "2-4 inputs, n_i<=4, m_i<=3, three data-presence patterns per shape, points/curves/surfaces"}[tier],
-        expected_outcomes={"Merge": {"ok"}, "DrapeMerge": {"ok"}},
+        expected_outcomes={"Merge": {"ok"}, "DrapeMerge": {"ok"}, "MergeDup": {"ok"}},
     )
